@@ -1,0 +1,82 @@
+//go:build verif
+
+package node
+
+// Accessors for the verification harness (properties C07 determinism of apply and
+// C11 robustness against client input).  Nothing in here changes behaviour.
+
+import (
+	"reflect"
+	"sort"
+
+	"github.com/absolute8511/redcon"
+)
+
+// VerifDetStore returns the store behind a key-value state machine (nil for other kinds).
+func VerifDetStore(sm StateMachine) *KVStore {
+	if k, ok := sm.(*kvStoreSM); ok {
+		return k.store
+	}
+	return nil
+}
+
+// VerifDetSM returns the state machine a data node applies its log to.
+func VerifDetSM(nd *KVNode) StateMachine { return nd.sm }
+
+// VerifDetSetSM replaces the state machine of a data node (call before the node is started);
+// used to put a recording decorator around the real one.
+func VerifDetSetSM(nd *KVNode, sm StateMachine) { nd.sm = sm }
+
+// VerifDetNodeStore returns the store a data node reads from.
+func VerifDetNodeStore(nd *KVNode) *KVStore { return nd.store }
+
+func verifDetMapKeys(v reflect.Value, field string) []string {
+	for v.Kind() == reflect.Ptr || v.Kind() == reflect.Interface {
+		v = v.Elem()
+	}
+	m := v.FieldByName(field)
+	var out []string
+	if m.IsValid() && m.Kind() == reflect.Map {
+		for _, k := range m.MapKeys() {
+			out = append(out, k.String())
+		}
+	}
+	sort.Strings(out)
+	return out
+}
+
+// VerifDetInternalCommands lists the names registered in the apply-side router.
+func VerifDetInternalCommands(sm StateMachine) []string {
+	k, ok := sm.(*kvStoreSM)
+	if !ok {
+		return nil
+	}
+	return verifDetMapKeys(reflect.ValueOf(k.router), "smCmds")
+}
+
+// VerifDetCommandTables lists the names registered in the client-side router of a node:
+// keys "read", "write", "merge", "mergewrite".
+func VerifDetCommandTables(nd *KVNode) map[string][]string {
+	r := reflect.ValueOf(nd.router)
+	return map[string][]string{
+		"read":       verifDetMapKeys(r, "rcmds"),
+		"write":      verifDetMapKeys(r, "wcmds"),
+		"merge":      verifDetMapKeys(r, "mergeCmds"),
+		"mergewrite": verifDetMapKeys(r, "mergeWriteCmds"),
+	}
+}
+
+// VerifDetCallInternal calls one registered apply handler directly, the way ApplyRaftRequest
+// does after parsing an entry.
+func VerifDetCallInternal(sm StateMachine, name string, cmd redcon.Command, ts int64) (bool, interface{}, error) {
+	k, ok := sm.(*kvStoreSM)
+	if !ok {
+		return false, nil, nil
+	}
+	h, ok := k.router.GetInternalCmdHandler(name)
+	if !ok {
+		return false, nil, nil
+	}
+	v, err := h(cmd, ts)
+	return true, v, err
+}
